@@ -28,11 +28,13 @@ w11 = [r for r in rows if r[0][-1] in 'UV']
 w12 = [r for r in rows if r[0][-1] in 'WX']
 w13 = [r for r in rows if r[0][-1] in 'YZ']
 w14 = [r for r in rows if r[0][-1] in '12']
+w15 = [r for r in rows if r[0][-1] in '34']
 for name, w in (('wave 1 (A/B)', w1), ('wave 2 (C/D)', w2), ('wave 3 (E/F)', w3), ('wave 4 (G/H)', w4), ('wave 5 (I/J)', w5), ('wave 6 (K/L)', w6), ('wave 7 (M/N)', w7), ('wave 8 (O/P)', w8), ('wave 9 (Q/R, uninformed agents)', w9), ('wave 10 (S/T, uninformed agents)', w10),
                 ('wave 11 (U/V, round 2, uninformed agents)', w11),
                 ('wave 12 (W/X, round 2, uninformed agents)', w12),
                 ('wave 13 (Y/Z, round 2, uninformed agents)', w13),
-                ('wave 14 (1/2, round 2, uninformed agents)', w14)):
+                ('wave 14 (1/2, round 2, uninformed agents)', w14),
+                ('wave 15 (3/4, round 2, uninformed agents)', w15)):
     if w:
         print('\n%s: %d changes, %d detected at first evaluation, %d detected now' % (
             name, len(w), sum(1 for r in w if r[1] == 'yes'), sum(1 for r in w if r[2] != '-')))
